@@ -13,7 +13,7 @@ import (
 )
 
 type Op struct {
-	Op   string `json:"op"` // W R RM RA DS DA ; WP = write of the pattern (A+i) mod 251, i < N ; ST = AbacoRing.discardStale
+	Op   string `json:"op"` // W R RM RA DS DA ; CL = stop the AbacoRing device (the next ST opens it again) ; PS = store packet size N in the ring description ; WP = write of the pattern (A+i) mod 251, i < N ; ST = AbacoRing.discardStale
 	Data []byte `json:"-"`
 	D    []int  `json:"d,omitempty"`
 	N    int64  `json:"n,omitempty"`
@@ -24,6 +24,7 @@ type Case struct {
 	Cap   int    `json:"cap"`
 	Abaco bool   `json:"abaco,omitempty"` // drive discards through dastard's AbacoRing device (packet size 8192)
 	Base  uint64 `json:"base,omitempty"`  // both free-running pointers are set to this value right after Create
+	PSize int    `json:"psize,omitempty"` // packet size stored in the ring description (0 = the 8192 that Create puts there)
 	Ops   []Op   `json:"ops"`
 }
 
@@ -146,6 +147,10 @@ func corpus() []Case {
 		{Cap: 8192 * 4, Abaco: true, Ops: []Op{{Op: "WP", A: 0, N: 20000}, {Op: "ST"}, {Op: "RA"}, {Op: "WP", A: 5, N: 13000}, {Op: "ST"}, {Op: "RM", N: 8192}}},
 		// AbacoRing.ReadAllPackets takes whole packets only: 1 1/3 packets, poll, complete the packet, add one, poll
 		{Cap: 8192 * 4, Abaco: true, Ops: []Op{{Op: "ST"}, {Op: "WP", A: 0, N: 10922}, {Op: "RP"}, {Op: "WP", A: 129, N: 5462}, {Op: "WP", A: 7, N: 8192}, {Op: "RP"}, {Op: "RA"}}},
+		// a ring whose description gives a packet size other than 8192: stale data at start are discarded to a boundary
+		// of THAT size, whole packets of that size are read; then the device is stopped, the size changes, started again
+		{Cap: 8192 * 4, Abaco: true, PSize: 1000, Ops: []Op{{Op: "WP", A: 3, N: 9500}, {Op: "ST"}, {Op: "RA"}, {Op: "WP", A: 8, N: 2700}, {Op: "RP"}, {Op: "RA"}}},
+		{Cap: 8192 * 4, Abaco: true, PSize: 3000, Ops: []Op{{Op: "WP", A: 3, N: 10000}, {Op: "ST"}, {Op: "RA"}, {Op: "CL"}, {Op: "PS", N: 700}, {Op: "WP", A: 8, N: 9000}, {Op: "ST"}, {Op: "RA"}, {Op: "WP", A: 8, N: 2000}, {Op: "RP"}, {Op: "RA"}}},
 		// free-running pointers beyond 2^32 with strides that are not powers of two
 		{Cap: 64, Base: 1 << 32, Ops: []Op{{Op: "W", D: b(40, 0)}, {Op: "R", N: 3}, {Op: "DS", N: 7}, {Op: "RA"}, {Op: "W", D: b(50, 40)}, {Op: "DS", N: 12}, {Op: "RM", N: 5}, {Op: "RA"}}},
 		{Cap: 33, Base: 5*(1<<32) + 1792, Ops: []Op{{Op: "W", D: b(30, 0)}, {Op: "DS", N: 9}, {Op: "RA"}, {Op: "W", D: b(20, 30)}, {Op: "DS", N: 1000}, {Op: "RA"}}},
@@ -177,7 +182,20 @@ func gen(seed uint64, tier string) []interface{} {
 	for i := 0; i < na; i++ {
 		q := r.Fork()
 		c := Case{ID: id, Abaco: true, Cap: 8192*q.Range(2, 5) + q.Pick([]int{0, 1, 5, 4096})}
+		psizes := []int{100, 700, 1000, 3000, 4096, 8000, 8192, 8200, 12288}
+		if q.Chance(1, 2) {
+			c.PSize = q.Pick(psizes)
+		}
 		for k := q.Range(3, 9); k > 0; k-- {
+			if c.PSize != 0 && q.Chance(1, 5) {
+				// stop the device; sometimes the ring comes back with another packet size; stale data; start
+				c.Ops = append(c.Ops, Op{Op: "CL"})
+				if q.Chance(1, 2) {
+					c.Ops = append(c.Ops, Op{Op: "PS", N: int64(q.Pick(psizes))})
+				}
+				c.Ops = append(c.Ops, Op{Op: "WP", A: q.Intn(251), N: int64(q.Pick([]int{100, 5000, 8192, 9500, 12000}))}, Op{Op: "ST"})
+				continue
+			}
 			switch q.Intn(6) {
 			case 0, 1, 2:
 				c.Ops = append(c.Ops, Op{Op: "WP", A: q.Intn(251), N: int64(q.Pick([]int{1, 100, 4096, 5000, 8191, 8192, 8193, 12000, 16384, 20000}))})
@@ -210,10 +228,28 @@ func runCase(c Case) lib.Result {
 		A bool
 		B uint64
 		O []Op
-	}{c.Cap, c.Abaco, c.Base, c.Ops})}
-	if c.Abaco && (len(c.Ops) == 0 || c.Ops[0].Op != "ST") {
-		// opening the device (start) discards stale data: make that an explicit first operation
-		c.Ops = append([]Op{{Op: "ST"}}, c.Ops...)
+		P int
+	}{c.Cap, c.Abaco, c.Base, c.Ops, c.PSize})}
+	if c.Abaco {
+		// opening the device (start) discards stale data: make that an explicit operation in front of every
+		// ReadAllPackets that would find the device closed (whatever was written before it is stale data)
+		var ops []Op
+		open := false
+		for _, o := range c.Ops {
+			switch o.Op {
+			case "ST":
+				open = true
+			case "CL":
+				open = false
+			case "RP":
+				if !open {
+					ops = append(ops, Op{Op: "ST"})
+					open = true
+				}
+			}
+			ops = append(ops, o)
+		}
+		c.Ops = ops
 	}
 	name := fmt.Sprintf("verif_c18_%d_%d", os.Getpid(), c.ID)
 	rawName, descName := name+"_raw", name+"_desc"
@@ -248,6 +284,25 @@ func runCase(c Case) lib.Result {
 		}
 		f.Close()
 	}
+	pokePSize := func(n int) {
+		// bufferDescription: ... bufferSize u64 (offset 24), packetSize i64 (offset 32)
+		f, err := os.OpenFile("/dev/shm/"+descName, os.O_RDWR, 0)
+		if err != nil {
+			panic(err)
+		}
+		var b [8]byte
+		binary.LittleEndian.PutUint64(b[:], uint64(int64(n)))
+		if _, err := f.WriteAt(b[:], 32); err != nil {
+			panic(err)
+		}
+		f.Close()
+	}
+	descP := 8192 // the packet size in the ring description
+	if c.Abaco && c.PSize > 0 {
+		pokePSize(c.PSize)
+		descP = c.PSize
+	}
+	devP := descP // the packet size the open device has to use: the description's value when it was opened
 	var acc []byte // accepted bytes (harness bookkeeping, used to render what ReadAllPackets consumed)
 	var dev *dastard.VerifAbacoRing
 	defer func() {
@@ -264,6 +319,19 @@ func runCase(c Case) lib.Result {
 		var ob obsv
 		var term string
 		panicked := false
+		if o.Op == "CL" || o.Op == "PS" {
+			// not ring operations: they only decide which packet size the device must use from its next start
+			if o.Op == "CL" && dev != nil {
+				dev.Stop()
+				dev = nil
+				tags["abaco-restart"] = true
+			}
+			if o.Op == "PS" && o.N > 0 && c.Abaco {
+				pokePSize(int(o.N))
+				descP = int(o.N)
+			}
+			continue
+		}
 		func() {
 			defer func() {
 				if e := recover(); e != nil {
@@ -275,11 +343,9 @@ func runCase(c Case) lib.Result {
 				// AbacoRing.ReadAllPackets: the bytes it takes from the ring are seen through Readable before/after;
 				// they are rendered as a ReadMultipleOf(8192) whose data are the next bytes of the accepted stream
 				if dev == nil {
-					var err error
-					if dev, err = dastard.VerifOpenAbacoRing(ringnum); err != nil {
-						ob = obsv{Ret: "err"}
-						break
-					}
+					// cannot happen: an ST is inserted in front of an RP on a closed device
+					ob = obsv{Ret: "err"}
+					break
 				}
 				before := rb.BytesReadable()
 				dev.ReadAllPackets() // pattern bytes are not valid packets: the parse error is irrelevant here
@@ -295,6 +361,7 @@ func runCase(c Case) lib.Result {
 				// the device is opened by the first ST (start() = Open + discardStale), later ones call discardStale
 				var err error
 				if dev == nil {
+					devP = descP
 					dev, err = dastard.VerifOpenAbacoRing(ringnum)
 				} else {
 					err = dev.DiscardStale()
@@ -408,15 +475,15 @@ func runCase(c Case) lib.Result {
 				term = fmt.Sprintf("W (pat %d %d) %s %s", o.A%251, o.N, lib.Z(int64(ob.N)), rw)
 			case "RP":
 				if ob.Ret == "err" {
-					term = fmt.Sprintf("RMe 8192 %s", rw)
+					term = fmt.Sprintf("RMe %d %s", devP, rw)
 				} else {
-					term = fmt.Sprintf("RM 8192 %s %s", bytesTerm(ob.Data), rw)
+					term = fmt.Sprintf("RM %d %s %s", devP, bytesTerm(ob.Data), rw)
 				}
 			case "ST":
 				if ob.Ret == "err" {
-					term = fmt.Sprintf("DSe 8192 %s", rw)
+					term = fmt.Sprintf("DSe %d %s", devP, rw)
 				} else {
-					term = fmt.Sprintf("DS 8192 %s", rw)
+					term = fmt.Sprintf("DS %d %s", devP, rw)
 				}
 			case "R":
 				if ob.Ret == "err" {
